@@ -3,7 +3,7 @@
    Model: coq/C10/TextOut.v (the MIR_output functions), coq/C10/TextScan.v (scan_number, scan_string, scan_token,
    MIR_scan_string), coq/C10/FloatFmt.v (libc printf/strtod oracles). *)
 From Coq Require Import List ZArith NArith.
-From MirV Require Import Base.W64 C11.Ast C11.BinIO C11.BinIOProofs C10.TextOut C10.TextScan C10.TextProofs.
+From MirV Require Import Base.W64 C11.Ast C11.BinIO C11.BinIOProofs C10.TextOut C10.TextScan C10.TextProofs C10.LexProofs.
 Import ListNotations.
 Local Open Scope Z_scope.
 
@@ -25,6 +25,26 @@ Theorem text_int_roundtrip :
   /\ (forall u, in_u64 u -> strtoul 10 (p_nat u) = u /\ u64 (s64 (strtoul 10 (p_nat u))) = u).
 Proof. exact text_int_roundtrip_lemma. Qed.
 Print Assumptions text_int_roundtrip.
+
+(* scan_token (scan_number / scan_string / name scanning included) reads back every kind of lexeme
+   MIR_output writes, consuming exactly the lexeme, whenever a separator character (, newline : ( )
+   tab blank quote # ;) or the end of input follows: identifiers (with _ $ % . and digits), decimal
+   int64 and uint64 immediates (incl. the octal-looking 0), strings, and floating point lexemes of
+   the printf %.*e shape with no suffix, f or L.  pF/pD/pLD are strtof/strtod/strtold: the token carries
+   their value on exactly the lexeme that was printed. *)
+Theorem text_token_roundtrip : forall pF pD pLD rest f,
+  good_rest rest ->
+  (forall n, is_ident n -> scan_token pF pD pLD (S f) (n ++ rest) = Some (TName n, rest))
+  /\ (forall z, in_s64 z -> scan_token pF pD pLD (S f) (p_int z ++ rest) = Some (TInt z, rest))
+  /\ (forall u, in_u64 u -> scan_token pF pD pLD (S f) (p_nat u ++ rest) = Some (TInt (s64 u), rest))
+  /\ (forall body, float_lexeme body ->
+        scan_token pF pD pLD (S f) (body ++ rest) = Some (TDouble (pD body), rest)
+        /\ scan_token pF pD pLD (S f) (body ++ 102%N :: rest) = Some (TFloat (pF body), rest)
+        /\ scan_token pF pD pLD (S f) (body ++ 76%N :: rest) = Some (TLdouble (pLD body), rest))
+  /\ (forall s, is_bytes s -> (length s < f)%nat ->
+        scan_token pF pD pLD (S f) (output_str s ++ rest) = Some (TStr (nul_terminate s), rest)).
+Proof. exact text_token_roundtrip_lemma. Qed.
+Print Assumptions text_token_roundtrip.
 
 (* the text does not show what a binary read normalises: C11's "prints to the same text" *)
 Theorem text_print_norm : forall fF fD fLD ms, p_ctx fF fD fLD (map norm_module ms) = p_ctx fF fD fLD ms.
